@@ -44,6 +44,10 @@ Proof. exact disconnected_restarts. Qed.
 Theorem C13_session_reset_restarts : forall e m1 o1 m' o ch,
   poll e = SessionReset -> poll_action e m1 o1 = Some (m', o, ch) -> st m' = Connect.
 Proof. exact session_reset_restarts. Qed.
+(* every guard and action of the statemachine! block is one the model knows (timed_out, start_timeout):
+   nothing else touches the timer *)
+Theorem C13_table_known : sm_foreign = [].
+Proof. reflexivity. Qed.
 (* the dump timeout the code uses is the documented one *)
 Theorem C13_timeout_value : DUMP_TIMEOUT_MS = 2000%N.
 Proof. reflexivity. Qed.
@@ -69,3 +73,4 @@ Print Assumptions C13_tick_waits_for_timer.
 Print Assumptions C13_disconnected_restarts.
 Print Assumptions C13_session_reset_restarts.
 Print Assumptions C13_timeout_value.
+Print Assumptions C13_table_known.
